@@ -57,7 +57,11 @@ PlainStructs == Range(StructNames)
 ArrStructs == Range(ArrStructNames)
 Structs == PlainStructs \cup ArrStructs
 AllT == Scalars \cup Range(SelPtrNames) \cup PlainStructs
-ClsT == AllT \cup Ptrs \cup ArrStructs
+\* pointer-to-struct parameters (asum): a list/tuple of struct initializers becomes a temporary array
+PStructNames == <<"p_sA", "p_sB", "p_sE", "p_sJ">>
+PStructs == Range(PStructNames)
+PSItem(n) == CASE n = "p_sA" -> "sA" [] n = "p_sB" -> "sB" [] n = "p_sE" -> "sE" [] n = "p_sJ" -> "sJ"
+ClsT == AllT \cup Ptrs \cup ArrStructs \cup PStructs
 
 PItem(n) == CASE n = "p_i32" -> "i32" [] n = "p_u8" -> "u8" [] n = "p_i8" -> "i8"
               [] n = "p_char" -> "char" [] n = "p_void" -> "void" [] n = "p_i16" -> "i16"
@@ -76,6 +80,7 @@ Ty(n) == IF n \in Ints THEN IntOf(n)
                 [] n = "char[2][2]" -> ArrT(ArrT(CharT, 2), 2) [] n = "f32[3]" -> ArrT(FloatT(4), 3)
                 [] n = "char[2][2][2]" -> ArrT(ArrT(ArrT(CharT, 2), 2), 2) [] n = "f32[1][2]" -> ArrT(ArrT(FloatT(4), 2), 1)
                 [] n \in Ptrs -> PtrT(Ty(PItem(n)))
+                [] n \in PStructs -> PtrT(Ty(PSItem(n)))
                 [] n \in Structs -> [k |-> "struct", tag |-> n,
                                      fields |-> [i \in 1..Len(StructFields(n)) |-> Ty(StructFields(n)[i])]]
 
@@ -171,7 +176,8 @@ PtrRep(t, cls) ==
       [] cls = "str" -> PStr [] cls = "int0" -> PI(0) [] cls = "none" -> PNone
       [] cls = "cint" -> CInt(I32, 0) [] cls = "float" -> PF
 \* classes whose converted pointer points to at least the items the replayer asks for
-Derefable(cls) == cls \in {"same", "arr", "voidp", "charp", "ucharp", "list_ok", "tuple_ok", "bytes", "bytes01"}
+Derefable(cls) == cls \in {"same", "arr", "voidp", "charp", "ucharp", "list_ok", "tuple_ok", "bytes", "bytes01",
+                            "sl_full", "sl_short", "sl_dict", "sl_empty", "sl_tuple"}
 \* ... and to writable storage
 Writable(cls) == cls \in {"same", "arr", "voidp", "charp", "ucharp", "list_ok", "tuple_ok"}
 
@@ -195,11 +201,23 @@ StructRep(t, cls) ==
       [] cls = "dict_ok" -> [k |-> "dict", keys |-> [i \in 1..n |-> n + 1 - i], items |-> [i \in 1..n |-> oks[n + 1 - i]]]
       [] cls = "dict_short" -> [k |-> "dict", keys |-> <<n>>, items |-> <<oks[n]>>]
 
-Classes(n) == IF n \in Ints THEN IntClasses
+PStructClasses == {"sl_full", "sl_short", "sl_dict", "sl_empty", "sl_tuple", "sl_ovf", "sl_long", "sl_badtype",
+                   "none", "int0", "null", "str"}
+PStructRep(t, cls) ==
+    LET st == t.item n == Len(st.fields) oks == [i \in 1..n |-> FieldOk(st.fields[i])] IN
+    CASE cls \in {"sl_full", "sl_tuple"} -> PList(<<PList(oks), PList(oks)>>)
+      [] cls = "sl_short" -> PList(<<PList(SubSeq(oks, 1, n - 1)), PList(<<oks[1]>>)>>)
+      [] cls = "sl_dict" -> PList(<<[k |-> "dict", keys |-> <<n>>, items |-> <<oks[n]>>], PList(oks)>>)
+      [] cls = "sl_empty" -> PList(<<PList(<<>>), PList(<<>>)>>)
+      [] cls = "sl_ovf" -> PList(<<PList(oks), PList([oks EXCEPT ![1] = ItemOvf(st.fields[1])])>>)
+      [] cls = "sl_long" -> PList(<<PList(oks \o <<PI(1)>>)>>)
+      [] cls = "sl_badtype" -> PList(<<PList(oks), PNone>>)
+      [] cls = "none" -> PNone [] cls = "int0" -> PI(0) [] cls = "null" -> CPtr(PtrT(VoidT), 0) [] cls = "str" -> PStr
+Classes(n) == IF n \in PStructs THEN PStructClasses ELSE IF n \in Ints THEN IntClasses
               ELSE IF n = "bool" THEN BoolClasses ELSE IF n = "char" THEN CharClasses
               ELSE IF n \in {"f32", "f64"} THEN FloatClasses
               ELSE IF n \in Ptrs THEN PtrClasses ELSE StructClasses
-Rep(n, cls) == IF n \in Ints THEN IntRep(Ty(n), cls)
+Rep(n, cls) == IF n \in PStructs THEN PStructRep(Ty(n), cls) ELSE IF n \in Ints THEN IntRep(Ty(n), cls)
                ELSE IF n = "bool" THEN BoolRep(cls) ELSE IF n = "char" THEN CharRep(cls)
                ELSE IF n \in {"f32", "f64"} THEN FloatRep(cls)
                ELSE IF n \in Ptrs THEN PtrRep(Ty(n), cls) ELSE StructRep(Ty(n), cls)
@@ -244,6 +262,7 @@ MemT == Ints \cup {"bool", "char", "f32", "f64"}
 WrSigs == {<<"SIG", "wr", t>> : t \in MemT}
 RdiSigs == {<<"SIG", "rdi", t>> : t \in Ints \cup {"bool", "char", "f64"}}
 BumpSigs == {<<"SIG", "bump", t>> : t \in Ints}
+SumArrSigs == {<<"SIG", "isum", t>> : t \in Ints} \cup {<<"SIG", "asum", PSItem(p)>> : p \in PStructs}
 StructSigs == {<<"SIG", "smake", s>> : s \in PlainStructs}
               \cup {<<"SIG", "sget", s, k>> : s \in PlainStructs, k \in 1..5}
 SgetOk(s) == s[2] # "sget" \/ s[4] <= Len(StructFields(s[3]))
@@ -253,9 +272,9 @@ VSigs == {<<"SIG", "vsum", a>> : a \in UNION {Tup(VarClasses, n) : n \in 0..MaxN
                    st \in 0..10, sp \in {1, 3}, n \in 5..WideN}
 ClsOk(r) == HasClass(r[2], r[3])
 
-Cases == {s \in SelSigs : SelOk(s)} \cup WideSigs \cup SumSigs \cup WrSigs \cup RdiSigs \cup BumpSigs
+Cases == {s \in SelSigs : SelOk(s)} \cup WideSigs \cup SumSigs \cup WrSigs \cup RdiSigs \cup BumpSigs \cup SumArrSigs
          \cup {<<"SIG", "seterr">>} \cup {s \in StructSigs : SgetOk(s)} \cup VSigs
-         \cup {r \in {<<"CLS", n, cls>> : n \in ClsT, cls \in UNION {Classes(m) : m \in AllT}} : ClsOk(r)}
+         \cup {r \in {<<"CLS", n, cls>> : n \in ClsT, cls \in UNION {Classes(m) : m \in ClsT}} : ClsOk(r)}
          \cup {<<"VCLS", cls>> : cls \in VarClasses}
 
 Row(x) == IF x[1] = "CLS"
